@@ -49,3 +49,29 @@ func (s *Server) VerifListenAddr() net.Addr {
 	}
 	return s.listener.Addr()
 }
+
+// VerifMessageInfo exposes what a handler cannot read through the exported API
+// for extended operations: the decoded message kind, its message ID and the
+// extended operation name. Only compiled with the "verif" build tag.
+func VerifMessageInfo(r *Request) (kind string, messageID int64, extendedName string) {
+	if r == nil || r.message == nil {
+		return "", 0, ""
+	}
+	switch r.message.(type) {
+	case *SimpleBindMessage:
+		kind = "bind"
+	case *SearchMessage:
+		kind = "search"
+	case *ModifyMessage:
+		kind = "modify"
+	case *AddMessage:
+		kind = "add"
+	case *DeleteMessage:
+		kind = "delete"
+	case *ExtendedOperationMessage:
+		kind = "extended"
+	case *UnbindMessage:
+		kind = "unbind"
+	}
+	return kind, r.message.GetID(), string(r.extendedName)
+}
